@@ -6,6 +6,7 @@ package vkit
 import (
 	"math"
 	"reflect"
+	"strconv"
 	"sync/atomic"
 )
 
@@ -107,4 +108,12 @@ func ContentEqual(a, b reflect.Value) bool {
 		return true
 	}
 	return a.Type() == b.Type() && hashValue(a, 0) == hashValue(b, 0)
+}
+
+// ContentKey renders a value as "type#contenthash" (address independent), for transcripts.
+func ContentKey(v reflect.Value) string {
+	if !v.IsValid() {
+		return "<invalid>"
+	}
+	return v.Type().String() + "#" + strconv.FormatUint(hashValue(v, 0), 16)
 }
